@@ -51,7 +51,54 @@ func scanTable(c *core.Ctx) (rs rows, runs int, lit *ssa.Function, undecided str
 		}
 	}
 	if len(cbs) != 1 {
-		return rs, 0, nil, fmt.Sprintf("Meta.scanFields hands %d field callbacks to a struct-field iterator (want exactly one)", len(cbs))
+		// no per-field callback (the scan ranges over a list of fields it built itself): decide the same rows on the
+		// scanning routine as a whole, one struct per field shape
+		lit = scan
+		for _, anonymous := range []bool{true, false} {
+			for _, tag := range []string{"", `wire:""`} {
+				for _, kind := range []int64{25, 22, 20, 24} {
+					for _, canSet := range []bool{true, false} {
+						layout := map[string][]scanField{
+							"T:top": {{"F", anonymous, kind, canSet, tag}},
+							"T:F":   {{"x", false, 24, true, ""}},
+						}
+						got, und := scanWholeRun(c, scan, layout)
+						runs++
+						if und != "" {
+							return rs, runs, lit, und
+						}
+						w := fmt.Sprintf("struct {F (anonymous=%v tag=%q kind=%d settable=%v) {x}}: recorded %v", anonymous, tag, kind, canSet, got)
+						switch {
+						case anonymous && tag == "" && kind == 25:
+							rs.hit("embedded-struct")
+							if fmt.Sprint(got) != `["x":T:x/V:x@embed(T:F,V:F)]` {
+								rs.fail("embedded-struct", w)
+							}
+						case canSet:
+							rs.hit("settable-field")
+							if fmt.Sprint(got) != `["F":T:F/V:F@top]` {
+								rs.fail("settable-field", w)
+							}
+						default:
+							rs.hit("unsettable-field")
+							if len(got) != 0 {
+								rs.fail("unsettable-field", w)
+							}
+						}
+					}
+				}
+			}
+		}
+		wr, wund := scanWhole(c, scan)
+		runs++
+		if wund != "" {
+			return rs, runs, lit, wund
+		}
+		rs.hit("whole-scan")
+		if wr != "" {
+			rs.fail("whole-scan", wr)
+		}
+		return rs, runs, lit, ""
 	}
 	lit = cbs[0]
 	newEmbed := c.Func("component_definition", "NewEmbedHolder")
@@ -204,8 +251,35 @@ func scanTable(c *core.Ctx) (rs rows, runs int, lit *ssa.Function, undecided str
 	return
 }
 
-// scanWhole interprets Meta.scanFields with the struct-field iterator of util/reflectx as an oracle.
+type scanField struct {
+	name      string
+	anonymous bool
+	kind      int64
+	canSet    bool
+	tag       string
+}
+
+// scanWhole: the scanning routine on struct {a `wire`; Embedded{x; y unexported}; b}.
 func scanWhole(c *core.Ctx, scan *ssa.Function) (bad, undecided string) {
+	layout := map[string][]scanField{
+		"T:top":      {{"a", false, 24, true, `wire:""`}, {"Embedded", true, 25, true, ""}, {"b", false, 22, true, ""}},
+		"T:Embedded": {{"x", false, 24, true, ""}, {"y", false, 24, false, ""}},
+	}
+	got, und := scanWholeRun(c, scan, layout)
+	if und != "" {
+		return "", und
+	}
+	want := []string{`"a":T:a/V:a@top`, `"x":T:x/V:x@embed(T:Embedded,V:Embedded)`, `"b":T:b/V:b@top`}
+	if fmt.Sprint(got) != fmt.Sprint(want) {
+		return fmt.Sprintf("struct {a; Embedded{x; y unexported}; b}: recorded %v, expected %v", got, want), ""
+	}
+	return "", ""
+}
+
+// scanWholeRun interprets Meta.scanFields on a struct described by layout (type token id -> fields), with the
+// struct-field iterator of util/reflectx - or reflect's own NumField / Field, if the routine walks the struct itself -
+// as oracles, and renders what ends up recorded (in the definition, or in the list the routine hands back).
+func scanWholeRun(c *core.Ctx, scan *ssa.Function, layout map[string][]scanField) (got []string, undecided string) {
 	metaT := c.Named("component_definition", "Meta")
 	holderT := c.Named("component_definition", "Holder")
 	t := newTbl(c)
@@ -216,23 +290,64 @@ func scanWhole(c *core.Ctx, scan *ssa.Function) (bad, undecided string) {
 	topType, topVal := absint.NewTok("T:top", "type"), absint.NewTok("V:top", "rvalue")
 	topBase.Fields["Type"], topBase.Fields["Value"] = topType, topVal
 	top.Fields["Base"], top.Fields["Meta"], top.Fields["IsEmbed"] = topBase, m, absint.Bool(false)
-	type fd struct {
-		name      string
-		anonymous bool
-		kind      int64
-		canSet    bool
-	}
-	layout := map[string][]fd{
-		"T:top":      {{"a", false, 24, true}, {"Embedded", true, 25, true}, {"b", false, 22, true}},
-		"T:Embedded": {{"x", false, 24, true}, {"y", false, 24, false}},
-	}
 	canSet := map[absint.Value]bool{}
 	kindOf := map[absint.Value]int64{topType: 25}
+	typeOfValue := map[absint.Value]*absint.Tok{topVal: topType}
+	type made struct{ sf, ft, fv *absint.Tok }
+	cache := map[string]made{}
+	mk := func(owner string, f scanField) made {
+		if x, ok := cache[owner+"/"+f.name]; ok {
+			return x
+		}
+		sf := absint.NewTok("sf:"+f.name, "structfield")
+		ft := absint.NewTok("T:"+f.name, "type")
+		fv := absint.NewTok("V:"+f.name, "rvalue")
+		kindOf[ft], canSet[fv], typeOfValue[fv] = f.kind, f.canSet, ft
+		sf.Fields["Anonymous"], sf.Fields["Tag"], sf.Fields["Type"], sf.Fields["Name"] = absint.Bool(f.anonymous), absint.Str(f.tag), ft, absint.Str(f.name)
+		x := made{sf, ft, fv}
+		cache[owner+"/"+f.name] = x
+		return x
+	}
+	fieldsOf := func(ty absint.Value, what string) (string, []scanField) {
+		tk, ok := ty.(*absint.Tok)
+		if !ok || layout[tk.ID] == nil {
+			panic(&absint.Undecided{Msg: what + " of " + absint.Show(ty)})
+		}
+		return tk.ID, layout[tk.ID]
+	}
 	t.invokeN["Kind"] = func(ip *absint.Interp, a []absint.Value) absint.Value {
 		if k, ok := kindOf[a[0]]; ok {
 			return absint.Int(k)
 		}
 		panic(&absint.Undecided{Msg: "Kind() of an unknown type token"})
+	}
+	t.invokeN["NumField"] = func(ip *absint.Interp, a []absint.Value) absint.Value {
+		_, fs := fieldsOf(a[0], "NumField")
+		return absint.Int(len(fs))
+	}
+	t.invokeN["Field"] = func(ip *absint.Interp, a []absint.Value) absint.Value {
+		owner, fs := fieldsOf(a[0], "Field")
+		i, ok := a[1].(absint.Int)
+		if !ok || int(i) < 0 || int(i) >= len(fs) {
+			panic(&absint.GoPanic{Msg: "reflect: Field index out of bounds"})
+		}
+		return mk(owner, fs[i]).sf
+	}
+	t.ext["(reflect.Value).Field"] = func(ip *absint.Interp, a []absint.Value) absint.Value {
+		ty := typeOfValue[a[0]]
+		if ty == nil {
+			panic(&absint.Undecided{Msg: "Field of an unknown reflect.Value"})
+		}
+		owner, fs := fieldsOf(ty, "Field")
+		i, ok := a[1].(absint.Int)
+		if !ok || int(i) < 0 || int(i) >= len(fs) {
+			panic(&absint.GoPanic{Msg: "reflect: Field index out of range"})
+		}
+		return mk(owner, fs[i]).fv
+	}
+	t.ext["(reflect.Value).NumField"] = func(ip *absint.Interp, a []absint.Value) absint.Value {
+		_, fs := fieldsOf(typeOfValue[a[0]], "NumField")
+		return absint.Int(len(fs))
 	}
 	t.ext["(reflect.Value).CanSet"] = func(ip *absint.Interp, a []absint.Value) absint.Value {
 		v, ok := canSet[a[0]]
@@ -242,7 +357,6 @@ func scanWhole(c *core.Ctx, scan *ssa.Function) (bad, undecided string) {
 		return absint.Bool(v)
 	}
 	iterate := func(ip *absint.Interp, a []absint.Value) absint.Value {
-		ty, ok := a[0].(*absint.Tok)
 		var cb absint.Value
 		for _, x := range a[1:] {
 			switch x.(type) {
@@ -250,20 +364,13 @@ func scanWhole(c *core.Ctx, scan *ssa.Function) (bad, undecided string) {
 				cb = x
 			}
 		}
-		if !ok || layout[ty.ID] == nil || cb == nil {
-			panic(&absint.Undecided{Msg: "the struct-field iterator is asked to walk " + absint.Show(a[0])})
+		if cb == nil {
+			panic(&absint.Undecided{Msg: "the struct-field iterator is called without a callback"})
 		}
-		for _, f := range layout[ty.ID] {
-			sf := absint.NewTok("sf:"+f.name, "structfield")
-			ft := absint.NewTok("T:"+f.name, "type")
-			kindOf[ft] = f.kind
-			fv := absint.NewTok("V:"+f.name, "rvalue")
-			canSet[fv] = f.canSet
-			sf.Fields["Anonymous"], sf.Fields["Tag"], sf.Fields["Type"], sf.Fields["Name"] = absint.Bool(f.anonymous), absint.Str(""), ft, absint.Str(f.name)
-			if f.name == "a" {
-				sf.Fields["Tag"] = absint.Str(`wire:""`)
-			}
-			if e := ip.CallValue(cb, sf, fv); e != nil {
+		owner, fs := fieldsOf(a[0], "the struct-field iterator is asked to walk the fields")
+		for _, f := range fs {
+			x := mk(owner, f)
+			if e := ip.CallValue(cb, x.sf, x.fv); e != nil {
 				if _, isNil := e.(absint.Nil); !isNil {
 					return e
 				}
@@ -271,7 +378,6 @@ func scanWhole(c *core.Ctx, scan *ssa.Function) (bad, undecided string) {
 		}
 		return absint.Nil{}
 	}
-	n := 0
 	for _, fn := range c.Scope {
 		if p := core.PkgOf(fn); p == nil || !strings.HasSuffix(p.Pkg.Path(), "util/reflectx") || fn.Parent() != nil {
 			continue
@@ -279,12 +385,8 @@ func scanWhole(c *core.Ctx, scan *ssa.Function) (bad, undecided string) {
 		for _, pa := range fn.Params {
 			if sig, ok := pa.Type().Underlying().(*types.Signature); ok && sig.Params().Len() == 2 && sig.Params().At(0).Type().String() == "reflect.StructField" {
 				t.callee[fn] = iterate
-				n++
 			}
 		}
-	}
-	if n == 0 {
-		return "", "no struct-field iterator in util/reflectx"
 	}
 	ip := absint.New(t)
 	ip.IsLog, ip.InScope = core.IsLogCall, c.InScope
@@ -301,10 +403,10 @@ func scanWhole(c *core.Ctx, scan *ssa.Function) (bad, undecided string) {
 		return nil
 	}), nil)
 	if out.Undecided != nil {
-		return "", out.Undecided.Msg
+		return nil, out.Undecided.Msg
 	}
 	if out.Panic != nil {
-		return "PANIC " + out.Panic.Msg, ""
+		return []string{"PANIC " + out.Panic.Msg}, ""
 	}
 	collected, _ := m.Fields["Fields"].(*absint.List)
 	if (collected == nil || len(collected.Elems) == 0) && len(out.Ret) == 1 {
@@ -312,7 +414,6 @@ func scanWhole(c *core.Ctx, scan *ssa.Function) (bad, undecided string) {
 			collected = l // the routine hands the list back instead of appending it to the definition
 		}
 	}
-	var got []string
 	if collected != nil {
 		for _, e := range collected.Elems {
 			f, ok := e.(*absint.Tok)
@@ -344,11 +445,7 @@ func scanWhole(c *core.Ctx, scan *ssa.Function) (bad, undecided string) {
 			got = append(got, fmt.Sprintf("%s:%s/%s@%s", sfn, ty, val, hd))
 		}
 	}
-	want := []string{`"a":T:a/V:a@top`, `"x":T:x/V:x@embed(T:Embedded,V:Embedded)`, `"b":T:b/V:b@top`}
-	if fmt.Sprint(got) != fmt.Sprint(want) {
-		return fmt.Sprintf("struct {a; Embedded{x; y unexported}; b}: recorded %v, expected %v", got, want), ""
-	}
-	return "", ""
+	return got, ""
 }
 
 var tagScanRows = map[string]string{
@@ -726,7 +823,12 @@ func c11HolderReaders(c *core.Ctx, r *core.Report) {
 		for _, o := range others {
 			top := core.TopLevel(o.Fn)
 			name := top.Name()
-			okR := diag[name] && top.Signature.Recv() != nil && core.NamedOf(top.Signature.Recv().Type()) == holder
+			isDiag := func(g *ssa.Function) bool {
+				return diag[g.Name()] && g.Signature.Recv() != nil && core.NamedOf(g.Signature.Recv().Type()) == holder
+			}
+			// a diagnostic method, or an unexported helper that only they call (e.g. the holder chain as a slice)
+			okR := isDiag(top) || (top.Signature.Recv() != nil && core.NamedOf(top.Signature.Recv().Type()) == holder && withinRole(c, top, isDiag, 2))
+			_ = name
 			key := "Holder." + f + "-reader@" + core.FnName(top)
 			if seen[key] {
 				continue
